@@ -148,6 +148,9 @@ func hC03Pipe() {
 		verifReach("backend-silent-unenveloped")
 		return
 	}
+	if cl := p.sink.headSnap.Get("Content-Length"); cl != "" {
+		verifAssert(cl == strconv.Itoa(len(p.sink.body)), "C11: a declared Content-Length equals the number of body bytes written")
+	}
 	verifAssert(out.valid, "C03: response is valid for the client's protocol, with exactly one terminal disposition")
 	verifAssert(!out.dupStatus, "C03: no second terminal status after the transcoder ended the RPC")
 	if !out.valid {
